@@ -2,6 +2,7 @@ import MakoModel.Names.LemmasScopes
 import MakoModel.Names.LemmasML
 import MakoModel.Names.LemmasReserved
 import MakoModel.Names.LemmasCtx
+import MakoModel.Names.Samples
 /-!
 # C04 – names resolve through scopes, module, imports, context, builtins, UNDEFINED; context isolation;
 reserved names
@@ -73,16 +74,6 @@ theorem resolution_order_partial {c : Cfg} {t : Body} {rt : RT} (hg : goodT c t 
   · have ok := allScopes_ok hg s hs
     exact resolution_order_chain hrt ok.1 x hc (ok.2 x hx hc)
 
-/-- `<%def name="f(a)">${a}${y}<%def name="g()">${a}${z}</%def>${g()}</%def><%block>${w}</%block>
-<%call expr="f(1)" args="q">${q}${v}</%call><% k = 1 %>${k}${f(2)}` -/
-def sampleTree : Body :=
-  .defn 1 "f".toList ["a".toList] []
-    (.leaf 2 [] ["a".toList, "y".toList] (.defn 3 "g".toList [] [] (.leaf 4 [] ["a".toList, "z".toList] .nil)
-      (.leaf 5 [] ["g".toList] .nil)))
-  (.block 6 none "__M_anon_6".toList [] [] (.leaf 7 [] ["w".toList] .nil)
-  (.call 8 ["q".toList] ["q".toList] ["f".toList] (.leaf 9 [] ["q".toList, "v".toList] .nil)
-  (.code 10 ["k".toList] [] (.leaf 11 [] ["k".toList, "f".toList] .nil))))
-
 /-- the guard is satisfiable by a template with a nested def, an anonymous block and a call with content -/
 example : goodT {} sampleTree = true ∧ (allScopes {} sampleTree).length = 5 := by decide
 
@@ -100,13 +91,6 @@ theorem resolution_order_counterexample :
     (Impl.resolve {} (bodyScope {} t).frames "x".toList).toSVal {} rt "x".toList = .pyNameError ∧
     Spec.resolve {} (topNames {} t) rt (bodyScope {} t).frames "x".toList = .val (.obj 2) := by
   decide
-
-/-- `<%call expr="w()" args="q"><%def name="d()">${q}</%def></%call>` -/
-def callDefTree : Body :=
-  .call 1 ["q".toList] ["q".toList] ["w".toList] (.defn 2 "d".toList [] [] (.leaf 3 [] ["q".toList] .nil) .nil) .nil
-
-def ctxHas (n : Name) : RT :=
-  { importNs := fun _ => none, data := fun m => if m = n then some (.obj 2) else none, builtins := fun _ => none }
 
 /-- F-C04-6: the def of the call believes the call body's argument declared; it is emitted beside `body(q)`, not
 inside it: Python's `NameError`, where the specification says "the context's `q`". -/
